@@ -139,26 +139,34 @@ def _callback(code: types.CodeType, line: int):
     COVERED[key] = COVERED.get(key, 0) + 1
     ctx.last_site = key
     if ctx.trace_ws:
-        p = ctx.pending
-        if p is not None:
+        # write lines in progress, innermost last (a write line may call into code that has write lines of its own);
+        # a line is complete when its frame moves on to another line or returns: that event is "right after the write"
+        st = ctx.pending
+        if st:
             fr = sys._getframe(1)
-            if fr is p[0]:
-                if line != p[1]:
+            while st:
+                p = st[-1]
+                if fr is p[0]:
+                    if line == p[1]:
+                        break
+                else:
+                    g = fr.f_back
+                    while g is not None and g is not p[0]:
+                        g = g.f_back
+                    if g is not None:  # still on the stack below the current frame
+                        break
+                st.pop()
+                if not ctx.ws_ordinals or ctx.ws_ordinals[-1] != n:
                     ctx.ws_ordinals.append(n)
-                    ctx.pending = None
-            else:
-                g = fr.f_back
-                while g is not None and g is not p[0]:
-                    g = g.f_back
-                if g is None:  # the frame of the write-site has returned
-                    ctx.ws_ordinals.append(n)
-                    ctx.pending = None
         if key in WRITE_SITES:
             if len(ctx.ws_events) < 256:
                 ctx.ws_events.append((n, key))
-            if ctx.pending is None:
-                ctx.ws_hits += 1
-                ctx.pending = (sys._getframe(1), line)
+            if st is None:
+                st = ctx.pending = []
+            if len(st) < 16:
+                if not st:
+                    ctx.ws_hits += 1
+                st.append((sys._getframe(1), line))
     if n == ctx.evict_at:
         ctx.evicted_site = key
         ctx.evict_fn()
